@@ -5,8 +5,9 @@ from lib.vf import Ctx
 from props import c05
 
 ASSUME = [
-    "component dispatchers never write the clock (hypothesis Hframe) -- monitored: every play's clock difference is compared "
-    "with the payload of its own direct *.elapse action on the implementation",
+    "component dispatchers never write the clock (hypothesis Hframe): Props/C06_dispatch.v derives it from the binds (no component binds "
+    "global.time: generated obligation gen/DispatchData.v, vm_compute on the components extracted from real engines) over Model/Dispatch.v, "
+    "tied to the code by H-dispatch (run through c05.run); still monitored: every play's clock difference vs its own direct *.elapse payload",
     "time is modelled in exact ticks; the correspondence compares the documented advance with the recorded clocks up to 1e-9 "
     "relative (binary64 addition of the elapse payload)",
     "'by nothing if rejected': the model advances a CAST by the first positive DELAY among the events of its use-play whatever "
